@@ -449,12 +449,14 @@ class TaskDispatcher(object):
         is a number of characters, so the body is decoded before it is
         measured (a non-ASCII character takes more than one byte).
         """
+        result_is_valid = False
         try:
             result_as_string = message_body.decode("utf8")
             if len(result_as_string) > MAX_DATA_LENGTH:
                 result = {"errorType": "States.DataLimitExceeded"}
             else:
                 result = json.loads(result_as_string)
+                result_is_valid = True
         except ValueError as e:
             error_message = ("Response {} does not contain "
                 "valid JSON").format(message.body)
@@ -464,8 +466,17 @@ class TaskDispatcher(object):
             }
             self.logger.error(error_message)
 
+        """
+        The output that a SendTaskSuccess call supplies is the Task's result as
+        it stands, whatever it contains, so only the errors found above (too
+        large, not JSON) make an error of it. For every other response an
+        "errorType" field reports that the invocation failed.
+        """
+        is_task_output = (is_callback and
+                          "x-SendTaskSuccess" in message.properties and
+                          result_is_valid)
         error_type = None
-        if isinstance(result, dict):
+        if isinstance(result, dict) and not is_task_output:
             error_type = result.get("errorType")
 
         """
@@ -658,7 +669,10 @@ class TaskDispatcher(object):
                                 duration
                             )
 
-                    callback(result)
+                    if is_task_output and not error_type:
+                        callback(result, True)
+                    else:
+                        callback(result)
 
             message.acknowledge(multiple=False)
         else:  # If Message correlation_id not in self.pending_requests
